@@ -8,7 +8,7 @@ from tv.props import c13 as T
 ID = 'C14'
 LEVEL = 'exploration'
 QUICK_S = 45
-THOROUGH_S = 600
+THOROUGH_S = 300
 TECHNIQUE = ('runtime monitoring: __init__ log of generated user classes (logical clock shared with processor log), class '
              '__dict__ snapshots before the first and after every load (identity of attribute-access dunders, textX bookkeeping '
              'attributes, per-object storage size)')
@@ -279,7 +279,7 @@ def classify(what, outcome):
 
 
 def run(ctx):
-    for i in ctx.indices(2400 if ctx.tier == "quick" else 10000, "random"):
+    for i in ctx.indices(2400 if ctx.tier == "quick" else 10 ** 7, "random"):
         one(ctx, i)
     ctx.count('class_variants', len(VARIANTS))
 
